@@ -38,7 +38,7 @@ theorem loopItems_inv (h : RenderInv S R) (lv : String)
     split
     · rename_i rs2 e he
       rw [he] at hb1
-      exact h.trans hb1 h0
+      exact h.trans (h.vars _ _) (h.trans hb1 h0)
     · rename_i rs2 r he
       rw [he] at hb1
       have h2 := h.trans hb1 h0
@@ -46,7 +46,7 @@ theorem loopItems_inv (h : RenderInv S R) (lv : String)
       split
       · rename_i rs3 e hce
         rw [hce] at hc1
-        exact h.trans hc1 h2
+        exact h.trans (h.vars _ _) (h.trans hc1 h2)
       · rename_i rs3 cds hce
         rw [hce] at hc1
         have h3 := h.trans hc1 h2
